@@ -68,8 +68,21 @@ class Sched:
         self.active = True
 
     # ---- controller side ------------------------------------------------------------------
-    def _wait_back(self, what):
-        if not self.back.acquire(timeout=HANDOVER_TIMEOUT):
+    def _wait_back(self, what, st=None):
+        """Wait until the stepped thread hands the baton back.  A thread of the code under test that died instead
+        (the expiry thread is not started by us) is an observation, not a harness error."""
+        waited = 0.0
+        while st is not None and st.thread is not None and waited < HANDOVER_TIMEOUT:
+            if self.back.acquire(timeout=0.05):
+                return
+            waited += 0.05
+            if not st.thread.is_alive():
+                if self.back.acquire(timeout=0.2):
+                    return
+                st.status = 'done'
+                st.pending = ('dead', None)
+                return
+        if not self.back.acquire(timeout=HANDOVER_TIMEOUT if st is None else 0.05):
             raise common.HarnessError('c15 scheduler: %s did not hand the baton back (a real blocking call outside '
                                       'the instrumented primitives?)' % what)
 
@@ -121,7 +134,7 @@ class Sched:
         st.timeout_now = bool(timeout)
         self.trace.append((name, op[0]))
         st.go.release()
-        self._wait_back('thread %s after %r' % (name, op[0]))
+        self._wait_back('thread %s after %r' % (name, op[0]), st)
         return op
 
     def all_done(self, names):
@@ -352,7 +365,7 @@ class SharedDict(dict):
         return default
 
     def pop(self, key, *default):
-        self._y('pop')
+        self._y('del' if self._kind == 'exp' else 'pop')
         return dict.pop(self, key, *default)
 
     def __delitem__(self, key):
@@ -458,14 +471,56 @@ class ThreadingShim:
         return getattr(_threading, name)
 
 
+def _rehost(live, base):
+    """A copy of class `live` (a direct subclass of dict) whose base is `base` (a dict subclass with hooks): the
+    same code objects, with the `__class__` cell of zero-argument `super()` pointing at the copy, so that every
+    spelling of a dict primitive -- `self.get`, `self[k]`, `super().__setitem__`, `super(Cls, self).__setitem__`
+    (the module-level name is rebound to the copy), `dict.__setitem__(self, ...)` (the module-level name `dict`
+    is rebound to DictNS) -- reaches the hooks."""
+    import types
+    if live.__bases__ != (dict,):
+        raise common.HarnessError('AntiStampedeCache is no longer a direct subclass of dict: %r' % (live.__bases__,))
+    cell = types.CellType()
+
+    def refn(f):
+        if not isinstance(f, types.FunctionType):
+            return f
+        closure = f.__closure__
+        if closure and '__class__' in f.__code__.co_freevars:
+            closure = tuple(cell if name == '__class__' else c
+                            for name, c in zip(f.__code__.co_freevars, closure))
+        g = types.FunctionType(f.__code__, f.__globals__, f.__name__, f.__defaults__, closure)
+        g.__kwdefaults__ = f.__kwdefaults__
+        g.__dict__.update(f.__dict__)
+        g.__doc__ = f.__doc__
+        g.__qualname__ = f.__qualname__
+        return g
+
+    ns = {}
+    for k, v in live.__dict__.items():
+        if k in ('__dict__', '__weakref__'):
+            continue
+        if isinstance(v, staticmethod):
+            v = staticmethod(refn(v.__func__))
+        elif isinstance(v, classmethod):
+            v = classmethod(refn(v.__func__))
+        elif isinstance(v, property):
+            v = property(refn(v.fget), refn(v.fset), refn(v.fdel), v.__doc__)
+        else:
+            v = refn(v)
+        ns[k] = v
+    clone = type(live.__name__, (base,), ns)
+    cell.cell_contents = clone
+    return clone
+
+
 def make_classes(caching):
     """Instrumented subclasses of the LIVE AntiStampedeCache and MemoryCache."""
     live_asc = caching.__dict__.get('_c15_live_asc') or caching.AntiStampedeCache
     live_mc = caching.MemoryCache
     caching._c15_live_asc = live_asc
 
-    class InstrASC(live_asc, HookDict):
-        pass
+    InstrASC = _rehost(live_asc, HookDict)
 
     def _get_cur(self):
         w = _world[0]
@@ -499,5 +554,4 @@ def make_classes(caching):
             live_mc.clear(self)
             self._c15_wrap()
 
-    InstrASC.__name__ = 'AntiStampedeCache'
     return InstrASC, InstrMemoryCache
